@@ -181,6 +181,25 @@ def random_config(rng, max_w=16, max_h=8):
         need = (WaveletFilters(cfg["mix"]["wavelet"]), WaveletFilters(cfg["mix"]["wavelet_ho"]), cfg["mix"]["depth"], cfg["mix"]["depth_ho"]) not in QUANTISATION_MATRICES
         if need:
             cfg["mix"]["qm"] = [rng.choice([0, 1, 2, 3]) for _ in range(qm_length(cfg["mix"]["depth"], cfg["mix"]["depth_ho"]))]
+        if rng.random() < 0.4 and pcm == 0:
+            # A, B, A': a third group of pictures coded with the main
+            # parameters except for one of them
+            which = rng.choice(["depth_ho", "depth_ho", "wavelet_ho", "sx", "sy", "depth"])
+            m3 = {}
+            if which == "depth_ho":
+                m3["depth_ho"] = depth_ho + 1 if depth_ho < 2 else depth_ho - 1
+            elif which == "wavelet_ho":
+                m3["wavelet_ho"] = (wavelet_ho + 1) % 7
+            elif which == "depth":
+                m3["depth"] = depth + 1 if depth < 3 else depth - 1
+            else:
+                m3[which] = (sx if which == "sx" else sy) % 3 + 1
+            d3 = dict(depth=depth, depth_ho=depth_ho, wavelet=wavelet, wavelet_ho=wavelet_ho)
+            d3.update({k: v for k, v in m3.items() if k in d3})
+            if (WaveletFilters(d3["wavelet"]), WaveletFilters(d3["wavelet_ho"]), d3["depth"], d3["depth_ho"]) not in QUANTISATION_MATRICES:
+                m3["qm"] = [rng.choice([0, 1, 2, 3]) for _ in range(qm_length(d3["depth"], d3["depth_ho"]))]
+            cfg["mix3"] = m3
+            cfg["npics"] = max(3, cfg["npics"])
     else:
         cfg["mix"] = None
     if pcm == 1:
@@ -329,9 +348,26 @@ def encode_sequences(cfg):
             # keep the budget generous enough for the other slice count
             c2["picture_bytes"] = max(cfg["picture_bytes"], 4 * mix["sx"] * mix["sy"] + cfg["picture_bytes"])
         cf2 = build_codec_features(c2)
+    cf3 = None
+    if mix and cfg.get("mix3"):
+        # a third geometry: the MAIN parameters with one thing changed (A, B, A')
+        c3 = dict(cfg)
+        c3.update(cfg["mix3"])
+        try:
+            cf3 = build_codec_features(c3)
+        except Exception:  # noqa: BLE001 — not encodable: two geometries only
+            cf3 = None
     for s in range(cfg.get("nseq", 1)):
         pics = make_pictures(cfg, s)
-        if cf2 is not None and len(pics) >= 2:
+        if cf2 is not None and cf3 is not None and len(pics) >= 3 and cfg["pcm"] == 0:
+            k1 = len(pics) // 3
+            k2 = 2 * len(pics) // 3
+            seq = make_sequence(cf, pics[:k1])
+            for cfx, part in ((cf2, pics[k1:k2]), (cf3, pics[k2:])):
+                other = make_sequence(cfx, part)
+                extra = [du for du in other["data_units"] if "picture_parse" in du or "fragment_parse" in du]
+                seq["data_units"][-1:-1] = extra
+        elif cf2 is not None and len(pics) >= 2:
             # first half coded with the main parameters, second half with the
             # other ones (picture numbers, if explicit, stay consecutive)
             k = len(pics) // 2
